@@ -16,13 +16,14 @@ def sh(cmd, cwd=None, timeout=1800):
     return r.returncode, r.stdout + r.stderr
 
 
-def make(jobs=16, timeout=1800):
-    """coq_makefile + make; returns (ok, log)"""
+def make(jobs=16, timeout=1800, target="Model/Program.vo"):
+    """coq_makefile + make of the executable model only (the proofs are built per property by the
+    proof stage, so that a broken proof never prevents the model from being run); returns (ok, log)"""
     os.makedirs(BUILD, exist_ok=True)
     rc, out = sh("coq_makefile -f _CoqProject -o Makefile", cwd=COQ)
     if rc != 0:
         return False, out
-    rc, out = sh("timeout %d make -j%d 2>&1" % (timeout, jobs), cwd=COQ, timeout=timeout + 30)
+    rc, out = sh("timeout %d make -j%d %s 2>&1" % (timeout, jobs, target), cwd=COQ, timeout=timeout + 30)
     return rc == 0, out
 
 
@@ -62,6 +63,9 @@ if __name__ == "__main__":
     if "--setup" in sys.argv:
         okr, logr = regenerate()
         print(logr[-500:])
+        # build every theorem file once so that the per-property checks only re-check what changed
+        rc, out = sh("coq_makefile -f _CoqProject -o Makefile && timeout 3000 make -j16 2>&1 | tail -5", cwd=COQ, timeout=3100)
+        print(out[-800:])
     ok, log = build_all("--force" in sys.argv or "--setup" in sys.argv)
     print(log[-3000:])
     sys.exit(0 if ok else 1)
